@@ -42,10 +42,20 @@ type cfgB struct {
 	eager    bool   // importer takes results as soon as some are ready (else: only when nothing else can move)
 	split    bool   // headers are scheduled in two batches (second one at the first import opportunity)
 	ticker   bool   // no extra wake signals: only fetchParts' own 100 ms ticker makes time pass
+
+	// a second sync cycle on the same Downloader ("" = none)
+	cyc2   string // same: the chain of the first cycle again | fork: a chain sharing blocks 1..shared with it
+	cutAt  int    // the first cycle is cancelled as soon as the importer holds at least cutAt blocks (>= chain length: it runs to its end)
+	rel    int    // same chain: the second cycle's first block = the point the first one reached (first block not handed out) + rel
+	shared uint64 // fork: the second cycle's first block = min(point reached, shared+1)
 }
 
 func (c cfgB) String() string {
-	return fmt.Sprintf("chain=%s window=%d maxfetch=%d p2=%s master=%v eager=%v split=%v ticker-only=%v", c.pattern, c.window, c.maxFetch, c.p2, c.master, c.eager, c.split, c.ticker)
+	s := fmt.Sprintf("chain=%s window=%d maxfetch=%d p2=%s master=%v eager=%v split=%v ticker-only=%v", c.pattern, c.window, c.maxFetch, c.p2, c.master, c.eager, c.split, c.ticker)
+	if c.cyc2 != "" {
+		s += fmt.Sprintf(" second-cycle=%s first-cycle-cut-at=%d origin-rel=%+d fork-shares=1..%d", c.cyc2, c.cutAt, c.rel, c.shared)
+	}
+	return s
 }
 
 // answer kinds of the designated peer (first = honest default)
@@ -77,6 +87,8 @@ type reqB struct {
 	seq     int // per peer
 	hashes  []common.Hash
 	nums    []uint64
+	ch      *chain // the chain the requested headers are on
+	cyc     int    // the sync cycle in which it was first seen
 	seenAt  int    // controller step at which it was first seen
 	state   string // "" = not handled | answered | waiting (never answered) | late (answer due after expiry) | orphan
 	expired bool
@@ -89,15 +101,21 @@ type inboxB struct {
 }
 
 type stubB struct {
-	id string
-	in *inboxB
-	ch *chain
+	id  string
+	in  *inboxB
+	ch  *chain
+	alt *chain // second cycle's chain, if another one
 }
 
 func (s *stubB) RequestBodies(hs []common.Hash) error {
-	r := &reqB{peer: s.id, hashes: hs}
+	r := &reqB{peer: s.id, hashes: hs, ch: s.ch}
 	for _, h := range hs {
-		r.nums = append(r.nums, s.ch.num[h])
+		if _, ok := s.ch.num[h]; !ok && s.alt != nil {
+			r.ch = s.alt // a block above the fork point
+		}
+	}
+	for _, h := range hs {
+		r.nums = append(r.nums, r.ch.num[h])
 	}
 	s.in.mu.Lock()
 	s.in.seq[s.id]++
@@ -135,9 +153,14 @@ type runB struct {
 	res     *resultB
 	fullObs bool // first-occurrence / replay mode: observe a dead state over 30 real ticker periods
 
+	cyc        int    // sync cycle (1, 2)
+	org        uint64 // first block the current cycle fetches
+	alt        *chain // the second cycle's chain if it is another one
 	step       int
-	seen       int // inbox entries already noticed
-	got        uint64
+	unsettled  int // waits that ended by their 5 s limit instead of a settled loop
+	halt       bool
+	seen       int    // inbox entries already noticed
+	got        uint64 // blocks handed to the importer in the current cycle
 	nextSched  uint64
 	wakeFalse  bool
 	p2joined   bool
@@ -164,7 +187,29 @@ const (
 	stablePolls = 10
 )
 
-func (r *runB) n() uint64 { return uint64(len(r.cfg.pattern)) }
+// deadlineB: the check's internal deadline (set by runFetch); running schedules give up after it.
+var deadlineB time.Time
+
+func (r *runB) n() uint64 { return uint64(len(r.ch.pattern)) }
+
+func (r *runB) stub(id string) *stubB {
+	return &stubB{id: id, in: &r.in, ch: chainFor(r.cfg.pattern), alt: r.alt}
+}
+
+// bodiesOf: the bodies a request asks for, from the chain its headers are on.
+func (r *runB) bodiesOf(q *reqB) [][]*types.Transaction {
+	out := make([][]*types.Transaction, 0, len(q.nums))
+	for _, n := range q.nums {
+		out = append(out, q.ch.txs[n])
+	}
+	return out
+}
+
+func (r *runB) wrongOf(q *reqB, i int) [][]*types.Transaction {
+	l := r.bodiesOf(q)
+	l[i] = r.ch.bogus
+	return l
+}
 
 // poke makes the loop run a round now instead of at its next 100 ms tick.
 func (r *runB) poke() {
@@ -266,10 +311,27 @@ func (r *runB) fingerprint(st downloader.VerifLoopState, returned bool) string {
 // arrived: every request the queue holds in flight has reached its peer stub
 // (FetchBodies hands it over in a new goroutine).
 func (r *runB) arrived(st downloader.VerifLoopState) bool {
+	var rs []*reqB
 	for id, ns := range st.Pend {
 		l := r.latest(id)
-		if l == nil || nums(l.nums) != nums(ns) {
+		if l != nil && nums(l.nums) == nums(ns) {
 			// cleared entries of a delivered request never stay in the pend pool
+			continue
+		}
+		// the hand-over goroutines of two requests can overtake each other (the older
+		// one was satisfied by a packet already under way before it even reached the
+		// stub): an unhandled request for the same blocks has arrived all the same
+		if rs == nil {
+			rs = r.requests()
+		}
+		ok := false
+		for _, q := range rs {
+			if q.peer == id && q.state == "" && nums(q.nums) == nums(ns) {
+				ok = true
+				break
+			}
+		}
+		if !ok {
 			return false
 		}
 	}
@@ -323,7 +385,11 @@ func (r *runB) settleRaw() (downloader.VerifLoopState, bool, error) {
 		if r.cfg.ticker {
 			need = 650 // more than one period of the loop's ticker
 		}
-		if stable >= need || time.Since(start) > 5*time.Second {
+		if stable >= need {
+			return st, ret, err
+		}
+		if time.Since(start) > 5*time.Second {
+			r.unsettled++
 			return st, ret, err
 		}
 	}
@@ -358,12 +424,6 @@ func (r *runB) send(peer string, lists [][]*types.Transaction, class string) {
 	}
 }
 
-func (r *runB) wrongAt(ns []uint64, i int) [][]*types.Transaction {
-	l := r.bodies(ns)
-	l[i] = r.ch.bogus
-	return l
-}
-
 // handleP1 answers a request of the designated peer according to the schedule.
 func (r *runB) handleP1(q *reqB) {
 	alts := []string{kFull}
@@ -382,32 +442,32 @@ func (r *runB) handleP1(q *reqB) {
 	q.state = "answered"
 	switch kind {
 	case kFull:
-		r.lastAnswer = r.bodies(q.nums)
+		r.lastAnswer = r.bodiesOf(q)
 		r.send("P1", r.lastAnswer, "complete answer")
 	case kPart:
 		k := len(q.nums) / 2
-		r.lastAnswer = r.bodies(q.nums[:k])
+		r.lastAnswer = r.bodiesOf(q)[:k]
 		r.send("P1", r.lastAnswer, "prefix of the answer")
 		r.tag("partial")
 	case kEmpty:
 		r.send("P1", nil, "empty answer")
 		r.tag("empty")
 	case kWrong0:
-		r.send("P1", r.wrongAt(q.nums, 0), "answer with a wrong first body")
+		r.send("P1", r.wrongOf(q, 0), "answer with a wrong first body")
 		r.tag("wrong-body")
 	case kWrongLast:
-		r.send("P1", r.wrongAt(q.nums, len(q.nums)-1), "answer with a wrong last body")
+		r.send("P1", r.wrongOf(q, len(q.nums)-1), "answer with a wrong last body")
 		r.tag("wrong-body")
 	case kDup:
 		r.send("P1", r.lastAnswer, "previous answer again")
 		r.settle()
-		r.lastAnswer = r.bodies(q.nums)
+		r.lastAnswer = r.bodiesOf(q)
 		r.send("P1", r.lastAnswer, "complete answer")
 		r.tag("duplicate")
 	case kUnsol:
 		r.send("P1", [][]*types.Transaction{r.ch.bogus, r.ch.bogus}, "batch nobody asked for")
 		r.settle()
-		r.lastAnswer = r.bodies(q.nums)
+		r.lastAnswer = r.bodiesOf(q)
 		r.send("P1", r.lastAnswer, "complete answer")
 		r.tag("unsolicited")
 	case kTimeout:
@@ -434,9 +494,9 @@ func (r *runB) handleP2(q *reqB) {
 	q.state = "answered"
 	switch r.cfg.p2 {
 	case "honest":
-		r.send("P2", r.bodies(q.nums), "complete answer")
+		r.send("P2", r.bodiesOf(q), "complete answer")
 	case "liar":
-		r.send("P2", r.wrongAt(q.nums, 0), "answer with a wrong first body")
+		r.send("P2", r.wrongOf(q, 0), "answer with a wrong first body")
 	case "empty":
 		r.send("P2", nil, "empty answer")
 	case "dead":
@@ -458,7 +518,7 @@ func (r *runB) importStep() {
 	for _, x := range rs {
 		n := x.Header.Number.Uint64()
 		ns = append(ns, n)
-		want := uint64(origin) + r.got
+		want := r.org + r.got
 		switch {
 		case want > r.n() || x.Header.Hash() != r.ch.hash[want]:
 			what := "out of order"
@@ -501,6 +561,11 @@ func runSchedule(cfg cfgB, sched []string, fullObs bool) *resultB {
 	r := &runB{cfg: cfg, ch: chainFor(cfg.pattern), sched: sched, fullObs: fullObs,
 		res: &resultB{tags: map[string]bool{}}, lastEvent: map[string]string{}, warped: map[string]int{}}
 	r.in.seq = map[string]int{}
+	r.cyc, r.org = 1, origin
+	if cfg.cyc2 == "fork" {
+		// the second master peer's chain: same block pattern, own headers and bodies above the fork point
+		r.alt = forkFor(config{pattern: cfg.pattern, alt: cfg.pattern, shared: cfg.shared})
+	}
 	r.dl = downloader.VerifNewBodyDL(r.onDrop)
 	r.q = r.dl.Queue()
 	master := ""
@@ -508,7 +573,7 @@ func runSchedule(cfg cfgB, sched []string, fullObs bool) *resultB {
 		master = "P1"
 	}
 	r.dl.BeginSync(master, origin)
-	if err := r.dl.RegisterPeer("P1", &stubB{id: "P1", in: &r.in, ch: r.ch}); err != nil {
+	if err := r.dl.RegisterPeer("P1", r.stub("P1")); err != nil {
 		panic(err)
 	}
 	r.lastEvent["P1"] = "registered"
@@ -519,7 +584,7 @@ func runSchedule(cfg cfgB, sched []string, fullObs bool) *resultB {
 	}
 	r.nextSched = origin
 	r.dl.StartFetchBodies()
-	defer r.dl.Stop()
+	defer func() { r.dl.Stop() }()
 	r.schedule(first)
 
 	r.loop()
@@ -536,7 +601,16 @@ func (r *runB) schedule(k uint64) {
 	r.dl.WakeBodies(true)
 	if r.nextSched > r.n() && !r.wakeFalse {
 		r.wakeFalse = true
-		r.dl.WakeBodies(false)
+		// processHeaders blocks in this send (its own goroutine) until the fetcher takes
+		// the signal or the cycle is cancelled; the controller waits for that, but not
+		// for ever: a loop that has already returned never takes it
+		done := make(chan struct{})
+		go func() { r.dl.WakeBodies(false); close(done) }()
+		select {
+		case <-done:
+		case <-time.After(5 * time.Second):
+			r.ev("end-of-headers signal not taken")
+		}
 	}
 }
 
@@ -545,6 +619,32 @@ func (r *runB) loop() {
 	for r.step = 0; r.step < maxSteps; r.step++ {
 		st, ret, err := r.settle()
 		r.checkDrops()
+		if !ret && (r.unsettled > 12 || (!deadlineB.IsZero() && time.Now().After(deadlineB))) {
+			// a run whose loop state keeps moving for a minute of waits, or the check's
+			// budget is used up: given up as unfinished (recorded as a cap, never a verdict)
+			if r.unsettled > 12 {
+				r.tag("given-up-loop-state-never-settles")
+			} else {
+				r.tag("given-up-at-the-deadline")
+			}
+			break
+		}
+		if r.cyc == 1 && r.cfg.cyc2 != "" && (ret || r.got >= uint64(r.cfg.cutAt)) {
+			if ret {
+				// the first cycle ended by itself: judged like any cycle; a second one follows a completed one
+				r.finish(st, err)
+				if r.res.outcome != "completed" {
+					r.res.outcome = "first cycle " + r.res.outcome
+					return
+				}
+				r.tag("second-cycle-after-completion")
+			}
+			r.nextCycle(st)
+			if r.halt {
+				return
+			}
+			continue
+		}
 		if ret {
 			r.finish(st, err)
 			return
@@ -552,7 +652,7 @@ func (r *runB) loop() {
 		// note new requests
 		rs := r.requests()
 		for _, q := range rs[r.seen:] {
-			q.seenAt = r.step
+			q.seenAt, q.cyc = r.step, r.cyc
 			r.ev("%s receives request #%d [%s]", q.peer, q.seq, nums(q.nums))
 		}
 		r.seen = len(rs)
@@ -568,7 +668,7 @@ func (r *runB) loop() {
 		if r.cfg.p2 != "" && !r.p2joined && len(rs) > 0 {
 			r.p2joined = true
 			r.ev("P2 (%s) joins", r.cfg.p2)
-			if err := r.dl.RegisterPeer("P2", &stubB{id: "P2", in: &r.in, ch: r.ch}); err != nil {
+			if err := r.dl.RegisterPeer("P2", r.stub("P2")); err != nil {
 				panic(err)
 			}
 			continue
@@ -584,8 +684,13 @@ func (r *runB) loop() {
 			if q.state == "late" && q.expired {
 				q.state = "answered"
 				r.tag("late-answer")
-				r.lastAnswer = r.bodies(q.nums)
-				r.send(q.peer, r.lastAnswer, "late answer to an expired request")
+				r.lastAnswer = r.bodiesOf(q)
+				if q.cyc < r.cyc {
+					r.tag("late-answer-of-first-cycle")
+					r.send(q.peer, r.lastAnswer, "late answer to a request of the previous cycle")
+				} else {
+					r.send(q.peer, r.lastAnswer, "late answer to an expired request")
+				}
 				late = true
 				break
 			}
@@ -630,7 +735,7 @@ func (r *runB) loop() {
 			r.p1Away = false
 			r.ev("P1 reconnects")
 			r.tag("reconnect")
-			if err := r.dl.RegisterPeer("P1", &stubB{id: "P1", in: &r.in, ch: r.ch}); err != nil {
+			if err := r.dl.RegisterPeer("P1", r.stub("P1")); err != nil {
 				panic(err)
 			}
 			r.lastEvent["P1"] = "registered"
@@ -642,6 +747,81 @@ func (r *runB) loop() {
 		}
 	}
 	r.res.outcome = "unfinished"
+}
+
+// nextCycle ends the first sync cycle where it stands - spawnSync's epilogue and
+// Cancel: queue closed, cancel channel closed, fetchBodies awaited - and starts
+// the next Synchronise on the same Downloader: delivery / wake channels
+// emptied, queue.Reset, peers.Reset, new cancel channel, Prepare(first block),
+// fetchBodies spawned, the new master peer's headers scheduled.  Requests of the
+// first cycle that are still unanswered are answered late, in the second cycle.
+func (r *runB) nextCycle(st downloader.VerifLoopState) {
+	reached := r.org + r.got // first block not handed to the importer = where the result window stands
+	rs := r.requests()
+	for _, q := range rs[r.seen:] {
+		q.seenAt, q.cyc = r.step, r.cyc
+		r.ev("%s receives request #%d [%s]", q.peer, q.seq, nums(q.nums))
+	}
+	r.seen = len(rs)
+	open := 0
+	for _, q := range rs {
+		if q.state == "" && q.peer == "P1" {
+			q.state = "late" // the answer is on its way: it arrives in the next cycle
+			open++
+		}
+		if q.state == "waiting" || q.state == "late" || q.state == "orphan" {
+			q.expired = true // the queue forgets every request at the cycle start
+		}
+	}
+	if open > 0 || len(st.Pend) > 0 {
+		r.tag("cycle-cut-with-requests-in-flight")
+	}
+	if st.Processable > 0 {
+		r.tag("cycle-cut-with-results-ready")
+	}
+	err, returned := r.dl.EndSync(20 * time.Second)
+	if !returned {
+		r.viol("fetch loop: fetchBodies has not returned after the sync cycle was cancelled",
+			fmt.Sprintf("queue closed and cancel channel closed 20 s ago; cycle %d, importer holds %d blocks\n%s", r.cyc, r.got, strings.Join(r.res.events, "\n")))
+		r.res.outcome = "stuck after cancel"
+		r.halt = true
+		return
+	}
+	next := r.ch
+	var first uint64
+	if r.cfg.cyc2 == "fork" {
+		next = r.alt
+		first = r.cfg.shared + 1 // ancestor = the fork point ...
+		if reached < first {
+			first = reached // ... unless the local head is still below it
+		}
+	} else if f := int64(reached) + int64(r.cfg.rel); f >= 1 {
+		first = uint64(f)
+	}
+	if first < 1 {
+		first = 1
+	}
+	if top := uint64(len(next.pattern)); first > top {
+		first = top
+	}
+	switch {
+	case first < reached:
+		r.tag("second-cycle-starts-below-the-point-reached")
+	case first == reached:
+		r.tag("second-cycle-starts-at-the-point-reached")
+	default:
+		r.tag("second-cycle-starts-above-the-point-reached")
+	}
+	r.ev("cycle 1 ends with %d blocks handed out (fetchBodies: %v); cycle 2 fetches %d..%d of the %s chain", r.got, err, first, len(next.pattern), r.cfg.cyc2)
+	r.cyc, r.org, r.ch, r.got, r.nextSched = 2, first, next, 0, first
+	r.wakeFalse, r.stalled = false, false
+	master := ""
+	if r.cfg.master {
+		master = "P1"
+	}
+	r.dl.BeginSync(master, first)
+	r.dl.StartFetchBodies()
+	r.schedule(r.n() - first + 1)
 }
 
 // importOpportunity: results are ready.  Returns false if the importer lets the
@@ -747,9 +927,9 @@ func (r *runB) finish(st downloader.VerifLoopState, err error) {
 	if err == nil {
 		r.drain()
 		r.res.outcome = "completed"
-		if r.got != r.n() || r.nextSched <= r.n() {
+		if r.org+r.got != r.n()+1 || r.nextSched <= r.n() {
 			r.viol("fetch loop: fetchBodies reported completion with blocks not delivered",
-				fmt.Sprintf("importer holds %d of %d blocks, headers scheduled up to %d", r.got, r.n(), r.nextSched-1))
+				fmt.Sprintf("cycle %d: importer holds %d of the blocks %d..%d, headers scheduled up to %d", r.cyc, r.got, r.org, r.n(), r.nextSched-1))
 		}
 		return
 	}
